@@ -6,7 +6,9 @@ HARNESSES = ("objtree_h",)
 MLS = ("objtree",)
 THEOREMS = ["C20_order", "C20_register_occupied_noop", "C20_register_free_succeeds", "C20_children", "C20_tree_invariant",
             "C20_refinement", "C20_error_partial", "C20_error_root_fallback", "C20_error_refuted",
-            "C20_children_oracle", "C20_dispatch_oracle", "C20_known_object_oracle"]
+            "C20_children_oracle", "C20_dispatch_oracle", "C20_known_object_oracle",
+            "C20_dispatch_refines", "C20_dispatch_strict_partial", "C20_dispatch_strict_refuted", "C20_dispatch_quiet",
+            "C20_conn_error_refuted", "C20_pending_first", "C20_peer_builtin", "C20_get_user_data", "C20_free_all_members"]
 
 # path elements whose strcmp order is easy to get wrong: prefixes of each other,
 # '0' < 'A' < 'Z' < '_' < 'a', siblings that sort adjacently
@@ -98,6 +100,113 @@ def gen_random_history(rnd, mode, big=False):
     return toks
 
 
+KINDS = [("cox", 50), ("sox", 8), ("cpp", 3), ("cpg", 3), ("cpx", 3), ("spx", 3), ("spp", 2), ("cii", 5), ("cni", 3), ("coi", 3), ("sii", 2),
+         ("ron", 3), ("eon", 3), ("rnn", 2), ("cix", 2), ("cnx", 3), ("rpn", 2)]
+
+
+def gen_dispatch_history(rnd, tree_level=False):
+    """Histories aimed at the whole of dbus_connection_dispatch: filters, Peer / Introspect built-ins, message types,
+    NEED_MEMORY re-dispatch, callbacks that register / unregister while a dispatch is running (mode c);
+    with tree_level only the g / z observations (mode t)."""
+    elems = rnd.sample(ELEMS, rnd.choice((2, 3, 4)))
+    universe = {()}
+    for _ in range(rnd.randint(3, 8)):
+        universe.add(tuple(rnd.choice(elems) for _ in range(rnd.randint(0, 4))))
+    for p in sorted(universe):
+        for k in range(len(p)):
+            if rnd.random() < 0.6: universe.add(p[:k])
+    universe = sorted(universe)
+    registered, filters, toks = {}, [], []
+    next_id = [1]
+
+    def fresh():
+        next_id[0] += 1
+        return next_id[0] - 1
+
+    def mutate():
+        r = rnd.random()
+        if r < 0.65 and next_id[0] < 40:
+            p = rnd.choice(universe); i = fresh()
+            toks.append("%s:%s:%d" % ("f" if rnd.random() < 0.55 else "r", pstr(p), i))
+            registered.setdefault(p, i)
+        elif registered:
+            p = rnd.choice(sorted(registered)); toks.append("u:%s" % pstr(p)); registered.pop(p, None)
+
+    def action(chain_paths):
+        k = rnd.random()
+        near = chain_paths + [q + (rnd.choice(elems),) for q in chain_paths[:2]]
+        p = rnd.choice(near) if near and rnd.random() < 0.75 else rnd.choice(universe)
+        if k < 0.12 and chain_paths:
+            # swap the registration of a path on the chain for a new one of the other (or same) kind
+            p = rnd.choice(chain_paths); i = fresh(); registered[p] = i
+            return "u~%s+%s~%s~%d" % (pstr(p), "r" if rnd.random() < 0.6 else "f", pstr(p), i)
+        if k < 0.5:
+            registered.pop(p, None)
+            return "u~%s" % pstr(p)
+        i = fresh()
+        registered.setdefault(p, i)
+        return "%s~%s~%d" % ("f" if k < 0.78 else "r", pstr(p), i)
+
+    for _ in range(rnd.randint(2, 6)): mutate()
+    for _ in range(rnd.randint(2, 7)):
+        r = rnd.random()
+        if r < 0.25: mutate()
+        elif r < 0.35 and not tree_level:
+            if filters and rnd.random() < 0.3:
+                f = rnd.choice(filters); filters.remove(f); toks.append("G:%d" % f)
+            elif len(filters) < 4:
+                f = 50 + len(filters) + rnd.randint(0, 1) * 4
+                if f not in filters: filters.append(f); toks.append("F:%d" % f)
+        elif r < 0.45:
+            toks.append("g:%s" % pstr(rnd.choice(universe + [universe[-1] + ("x",)])))
+        elif r < 0.5 and not tree_level:
+            toks.append("p:%s" % (str(rnd.choice(filters)) if filters and rnd.random() < 0.5 else "-"))
+        elif not tree_level:
+            kind = rnd.choices([k for k, _ in KINDS], [w for _, w in KINDS])[0]
+            base = rnd.choice(universe)
+            p = base if rnd.random() < 0.6 else base + (rnd.choice(elems),) if rnd.random() < 0.7 else ("nope",)
+            if kind[0] in "re" and rnd.random() < 0.4: path = "-"
+            elif kind == "rnn": path = "-"
+            else: path = pstr(p)
+            chain_paths = [q for q in sorted(registered, key=len, reverse=True) if p[:len(q)] == q]
+            ids = [registered[q] for q in chain_paths] + filters
+            acc = "-"
+            if ids and rnd.random() < 0.4: acc = ",".join(str(x) for x in sorted(rnd.sample(ids, rnd.choice((1, 1, 2)) if len(ids) > 1 else 1)))
+            oom = "-"
+            if ids and rnd.random() < 0.25: oom = ",".join(str(x) for x in sorted(rnd.sample(ids, rnd.choice((1, 1, 2)) if len(ids) > 1 else 1)))
+            acts = "-"
+            if ids and rnd.random() < 0.5 and next_id[0] < 40:
+                groups = []
+                for actor in rnd.sample(ids, min(len(ids), rnd.choice((1, 1, 2)))):
+                    groups.append("%d=%s" % (actor, "+".join(action(chain_paths) for _ in range(rnd.randint(1, 3)))))
+                acts = ";".join(groups)
+            toks.append("d:%s:%s:%s:%s:%s" % (path, acc, oom, kind, acts))
+            if acts != "-" and rnd.random() < 0.7:
+                toks.append("d:%s:-:-:cox:-" % pstr(p))
+                toks.append("l:%s" % pstr(rnd.choice(universe)))
+    toks.append("l:/")
+    if rnd.random() < 0.7: toks.append("z")
+    return toks
+
+
+def gen_reentrant_exhaustive():
+    """/a, /a/b fallbacks and /a/b/c registered (with and without a root fallback); a call to /a/b/c during which ONE
+    callback performs every sequence of at most two register / register-fallback / unregister operations on these
+    three paths; then the same call again, quietly, and the listings."""
+    P = ["/a", "/a/b", "/a/b/c"]
+    single = ["u~%s" % p for p in P] + ["r~%s~%d" % (p, 10 + i) for i, p in enumerate(P)] + ["f~%s~%d" % (p, 20 + i) for i, p in enumerate(P)]
+    seqs = [[a] for a in single] + [[a, b.replace("~1", "~3").replace("~2", "~4") if b[0] != "u" else b] for a in single for b in single]
+    out = []
+    for root in (False, True):
+        for actor in (1, 3, 2):
+            for seq in seqs:
+                toks = (["f:/:4"] if root else []) + ["f:/a:2", "f:/a/b:3", "r:/a/b/c:1"]
+                toks.append("d:/a/b/c:-:-:cox:%d=%s" % (actor, "+".join(seq)))
+                toks += ["d:/a/b/c:-:-:cox:-", "d:/a/b/x:-:-:cox:-", "l:/", "l:/a", "l:/a/b", "g:/a/b", "z"]
+                out.append(toks)
+    return out
+
+
 def gen_exhaustive(universe, maxlen, probes, lists):
     """All histories of at most maxlen register / register-fallback / unregister ops over the universe,
     each followed by a fixed observation suite."""
@@ -120,7 +229,7 @@ def gen_exhaustive(universe, maxlen, probes, lists):
 
 def f12_shape(tok_impl, tok_spec):
     """UnknownMethod sent where the property text demands UnknownObject, same handlers invoked."""
-    return (tok_impl.startswith("c=") and tok_spec.startswith("c=") and tok_impl.endswith(":M") and tok_spec.endswith(":O")
+    return (tok_impl[:2] in ("c=", "d=") and tok_spec[:2] == tok_impl[:2] and tok_impl.endswith(":M") and tok_spec.endswith(":O")
             and tok_impl[:-2] == tok_spec[:-2])
 
 
@@ -128,11 +237,12 @@ def run(ctx):
     rep, tier, info = ctx["rep"], ctx["tier"], ctx["info"]
     rnd = random.Random(ctx["seed"])
     known = {k["id"]: k for k in vlib.load_known("C20")}
-    if not known:
-        # until the coordinator merges notes/C20.findings.json into known-findings.json
-        pf = os.path.join(vlib.VERIF, "notes", "C20.findings.json")
-        if os.path.exists(pf):
-            known = {k["id"]: k for k in json.load(open(pf)) if k.get("property") == "C20" and k.get("status") == "known"}
+    # entries proposed in notes/C20.findings.json count until the coordinator has merged them into known-findings.json
+    pf = os.path.join(vlib.VERIF, "notes", "C20.findings.json")
+    if os.path.exists(pf):
+        for k in json.load(open(pf)):
+            if k.get("property") == "C20" and k.get("status") == "known":
+                known.setdefault(k["id"], k)
     quick = tier == "quick"
     lines = []
     origin = {}
@@ -154,6 +264,14 @@ def run(ctx):
             l = "t " + " ".join(gen_random_history(rnd, "t", big=rnd.random() < 0.5)); lines.append(l); origin.setdefault(l, "random")
         for _ in range(3000 if quick else 60000):
             l = "c " + " ".join(gen_random_history(rnd, "c", big=rnd.random() < 0.5)); lines.append(l); origin.setdefault(l, "random")
+        # the whole dispatch: filters, built-ins, message types, NEED_MEMORY, re-entrant callbacks
+        for toks in gen_reentrant_exhaustive():
+            l = "c " + " ".join(toks); lines.append(l); origin.setdefault(l, "exhaustive")
+        rnd2 = random.Random(ctx["seed"] * 7919 + 20)
+        for _ in range(4000 if quick else 120000):
+            l = "c " + " ".join(gen_dispatch_history(rnd2)); lines.append(l); origin.setdefault(l, "random")
+        for _ in range(1500 if quick else 40000):
+            l = "t " + " ".join(gen_dispatch_history(rnd2, True)); lines.append(l); origin.setdefault(l, "random")
     seen = set(); uniq = []
     for l in lines:
         if l not in seen:
@@ -183,7 +301,7 @@ def run(ctx):
         mt, st = m.split(" | ")
         mt, st, it = mt.split(), st.split(), i.split()
         n_ops += len(ops)
-        if any(t.startswith("c=") and not t.startswith("c=-") for t in it):
+        if any(t[:2] in ("c=", "d=") and not t[2:].startswith("-") for t in it):
             nontrivial.add(line)
         if len(samples) < 12 and (len(lines) < 12 or rnd.random() < 12.0 / len(lines)):
             samples.append({"history": line[:400], "impl": i[:400], "model": m[:800]})
@@ -200,8 +318,16 @@ def run(ctx):
             elif a == "u1": outcomes["unregister_hit"] += 1
             elif a == "u0": outcomes["unregister_miss"] += 1
             elif a[:2] in ("l=", "i=") and not a.endswith("-"): outcomes["listings_nonempty"] += 1
+        spec_in_step = True     # false once model and strict specification have taken different turns (F12b): their states may differ
         for idx, (o, a, b, c) in enumerate(zip(ops, it, mt, st)):
             n_tokens_checked += 1
+            if a[:2] == "d=":
+                outcomes["dispatch_" + (a[-1] if a[-1] in "HPGMON" else "I")] = outcomes.get("dispatch_" + (a[-1] if a[-1] in "HPGMON" else "I"), 0) + 1
+                if "~" in o: outcomes["dispatch_reentrant"] = outcomes.get("dispatch_reentrant", 0) + 1
+            if b[:2] == "z=" and c[:2] == "z=" and sorted(b[2:].split(",")) == sorted(c[2:].split(",")):
+                c = b           # the specification fixes which callbacks run, not their order
+            if not spec_in_step:
+                c = b
             if a == b == c:
                 continue
             prefix = " ".join(ops[:idx + 1])
@@ -210,6 +336,10 @@ def run(ctx):
                 # implementation = model, both differ from the specification: must be a known finding
                 if f12_shape(a, c) and "F12" in known:
                     rep.known(known["F12"], {"history": prefix[-160:], "impl": a, "spec": c})
+                elif o[:2] == "d:" and "r~" in o and "F12b" in known:
+                    # C20_dispatch_strict_partial: only a non-fallback registration from inside a callback can do this
+                    rep.known(known["F12b"], {"history": prefix[-200:], "impl": a, "spec": c})
+                    spec_in_step = False
                 else:
                     rep.violation("after `%s`: code and model answer %s, the specification demands %s" % (prefix[-300:], a, c), rp)
                 continue
@@ -217,7 +347,7 @@ def run(ctx):
             if a != c:
                 rep.violation("after `%s`: implementation answers %s, specification demands %s (model: %s)" % (prefix[-300:], a, c, b), rp)
             else:
-                rp["names"] = "correspondence objtree_h vs ObjTree.ObjTree (%s)" % o.split(":")[0]
+                rp["names"] = "correspondence objtree_h vs ObjTree.{ObjTree,Dispatch} (%s)" % o.split(":")[0]
                 rep.violation("after `%s`: implementation answers %s but the model says %s (specification: %s)" % (prefix[-300:], a, b, c), rp,
                               found_input=False)
             break
